@@ -1490,5 +1490,8 @@ func (e *Exec) atCallAsserts(f *frame, in ssa.Instruction, cc *ssa.CallCommon, f
 		e.callOrd["atcall:"+c.Label+key]++
 		t := e.evalSpec(sf, full, h, e.preHeap) // old(...) = state at function entry
 		e.addObligation(f, "atcall", c, fmt.Sprintf("%s.%s@%s%d", shortName(key), labelOr(c, "atcall"), f.path, e.callOrd["atcall:"+c.Label+key]), g, t, in.Pos())
+		if c.Establishes && e.quiet == 0 {
+			e.s.assert(implies(g, t))
+		}
 	}
 }
